@@ -336,7 +336,7 @@ func main() {
 		cases = []kase{k}
 	} else {
 		cases = witnesses()
-		r := c.Rand
+		r := c.Rand.Fork() // Fork decorrelates the streams of neighbouring seeds
 		nReader, nRound, nXor := c.N(260, 6000), c.N(120, 3000), c.N(20, 300)
 		for i := 0; i < nReader; i++ {
 			f, note := genReaderFile(r)
